@@ -4,5 +4,4 @@ CONSTANTS
   Items = {"x1", "x2", "x3"}
   MaxLen = 4
   MaxSub = 3
-  UseDesign = FALSE
 CHECK_DEADLOCK FALSE
